@@ -1,9 +1,29 @@
-(* C07 - property theorems (statements only; the proofs live in Acme.C07.ProofsXxx). *)
+(* C07 - property theorems (statements only; the proofs live in Acme.C01.ProofsXxx / Acme.C07.ProofsXxx). *)
 From Coq Require Import ZArith List.
-From Acme.C01 Require Import Layout State Model.
+From Acme.C01 Require Import Layout State Model ProofsLayout ProofsInv Refuted ProofsT1.
 From Acme.C07 Require Import Model.
+Open Scope Z_scope.
 
 (* A multiplexer's size is its group size plus the selector width for its group count. *)
 Theorem mux_size : forall s u c g, kind s u = KMux c g -> sz s u = (g + selw c)%Z.
 Proof. intros s u c g H. unfold sz. rewrite H. reflexivity. Qed.
 Print Assumptions mux_size.
+
+(* Every group of every multiplexer is a well-formed layout within the group size, in every state
+   reached by a history satisfying the per-step hypotheses (see Properties/C01.v). *)
+Theorem groups_wf : forall ops, ok_hist ops -> forall u g,
+  wf (mux_gsize (run ops) u) (group_view (run ops) u g).
+Proof. exact t1_groups_wf. Qed.
+Print Assumptions groups_wf.
+
+Theorem groups_wf_full_refuted : ~ groups_wf_full.
+Proof. exact groups_wf_full_false. Qed.
+Print Assumptions groups_wf_full_refuted.
+
+Theorem d35_refuted : exists ops u g, ~ wf (mux_gsize (run ops) u) (group_view (run ops) u g).
+Proof. exact groups_full_refuted_d35. Qed.
+Print Assumptions d35_refuted.
+
+Theorem d35_grow_refuted : exists ops u g, ~ wf (mux_gsize (run ops) u) (group_view (run ops) u g).
+Proof. exact groups_full_refuted_d35_grow. Qed.
+Print Assumptions d35_grow_refuted.
